@@ -40,10 +40,18 @@ func loadAnchorTable() map[string]string {
 // functions and methods of the same package abstracted, everything else (fields, exported and foreign
 // names, literals, operators) kept.
 func bodyFingerprint(info *types.Info, fd *ast.FuncDecl) string {
+	fp, _ := fingerprintAndLocals(info, fd)
+	return fp
+}
+
+// fingerprintAndLocals: the fingerprint and the function's receiver, parameters, results and locals
+// in the order in which the fingerprint numbers them.
+func fingerprintAndLocals(info *types.Info, fd *ast.FuncDecl) (string, []types.Object) {
 	if fd.Body == nil || info == nil {
-		return ""
+		return "", nil
 	}
 	var sb strings.Builder
+	var order []types.Object
 	local := map[types.Object]int{}
 	self, _ := info.Defs[fd.Name].(*types.Func)
 	name := func(id *ast.Ident) string {
@@ -60,6 +68,7 @@ func bodyFingerprint(info *types.Info, fd *ast.FuncDecl) string {
 			if !ok {
 				n = len(local)
 				local[o] = n
+				order = append(order, o)
 			}
 			return fmt.Sprintf("v%d", n)
 		case *types.Func:
@@ -128,7 +137,7 @@ func bodyFingerprint(info *types.Info, fd *ast.FuncDecl) string {
 		return true
 	})
 	h := sha256.Sum256([]byte(sb.String()))
-	return hex.EncodeToString(h[:12])
+	return hex.EncodeToString(h[:12]), order
 }
 
 func anchorKey(pkgPath, recv, name string) string { return pkgPath + "|" + recv + "|" + name }
@@ -237,9 +246,19 @@ func recordAnchors(p *Prog) {
 				continue
 			}
 			for _, d := range f.Decls {
-				if fd, ok := d.(*ast.FuncDecl); ok && fd.Body != nil && !fd.Name.IsExported() {
-					anchorsCollected[anchorKey(pk.PkgPath, recvTypeName(fd), fd.Name.Name)] = bodyFingerprint(pk.TypesInfo, fd)
+				fd, ok := d.(*ast.FuncDecl)
+				if !ok || fd.Body == nil {
+					continue
 				}
+				fp, locals := fingerprintAndLocals(pk.TypesInfo, fd)
+				if !fd.Name.IsExported() {
+					anchorsCollected[anchorKey(pk.PkgPath, recvTypeName(fd), fd.Name.Name)] = fp
+				}
+				var names []string
+				for _, o := range locals {
+					names = append(names, o.Name())
+				}
+				anchorsCollected["locals:"+anchorKey(pk.PkgPath, recvTypeName(fd), fd.Name.Name)] = fp + "|" + strings.Join(names, ",")
 			}
 		}
 		if pk.Types == nil || len(pk.Syntax) == 0 {
@@ -298,7 +317,7 @@ func detectRenames(p *Prog) map[string][]renameEdit {
 		gone := map[string][]string{} // recv|fp -> recorded names that no longer exist
 		prefix := pk.PkgPath + "|"
 		for k, fp := range table {
-			if !strings.HasPrefix(k, prefix) || strings.HasPrefix(k, "struct:") {
+			if !strings.HasPrefix(k, prefix) || strings.HasPrefix(k, "struct:") || strings.HasPrefix(k, "locals:") {
 				continue
 			}
 			rest := k[len(prefix):]
@@ -326,6 +345,71 @@ func detectRenames(p *Prog) map[string][]renameEdit {
 				if fn, _ := pk.TypesInfo.Defs[fds[0].Name].(*types.Func); fn != nil {
 					orig[fn] = gone[k][0]
 					fmt.Fprintf(os.Stderr, "advice: %s: %s has the recorded body of %s and is analysed under that name (a pure rename)\n", pk.PkgPath, fds[0].Name.Name, gone[k][0])
+				}
+			}
+		}
+		// ---- parameters and locals of functions whose body is otherwise as recorded
+		for _, f := range pk.Syntax {
+			for _, d := range f.Decls {
+				fd, ok := d.(*ast.FuncDecl)
+				if !ok || fd.Body == nil {
+					continue
+				}
+				name := fd.Name.Name
+				if fn, _ := pk.TypesInfo.Defs[fd.Name].(*types.Func); fn != nil {
+					if o, renamed := orig[fn]; renamed {
+						name = o
+					}
+				}
+				rec, ok := table["locals:"+anchorKey(pk.PkgPath, recvTypeName(fd), name)]
+				if !ok {
+					continue
+				}
+				i := strings.Index(rec, "|")
+				if i < 0 {
+					continue
+				}
+				fp, locals := fingerprintAndLocals(pk.TypesInfo, fd)
+				if fp != rec[:i] {
+					continue
+				}
+				names := strings.Split(rec[i+1:], ",")
+				if rec[i+1:] == "" {
+					names = nil
+				}
+				if len(names) != len(locals) {
+					continue
+				}
+				// names that occur in the function for something that is not one of its locals must not be
+				// captured by a restored local name
+				isLocal := map[types.Object]bool{}
+				for _, o := range locals {
+					isLocal[o] = true
+				}
+				foreign := map[string]bool{}
+				ast.Inspect(fd, func(n ast.Node) bool {
+					if id, ok := n.(*ast.Ident); ok {
+						o := pk.TypesInfo.Uses[id]
+						if o == nil {
+							o = pk.TypesInfo.Defs[id]
+						}
+						if o != nil && !isLocal[o] {
+							if v, isVar := o.(*types.Var); !isVar || !v.IsField() {
+								foreign[id.Name] = true
+							}
+						}
+					}
+					return true
+				})
+				n := 0
+				for k, o := range locals {
+					if o.Name() != names[k] && names[k] != "_" && o.Name() != "_" && names[k] != "" && !foreign[names[k]] {
+						orig[o] = names[k]
+						n++
+					}
+				}
+				if n > 0 {
+					fmt.Fprintf(os.Stderr, "advice: %s: %d parameter/local name(s) of %s differ from the recorded ones in an otherwise unchanged body and are analysed under the recorded names\n", pk.PkgPath, n, fd.Name.Name)
 				}
 			}
 		}
